@@ -13,7 +13,7 @@ use rand::Rng;
 use serde_json::{json, Value};
 use std::collections::BTreeMap;
 
-fn term_j(t: &Term) -> Value {
+pub(crate) fn term_j(t: &Term) -> Value {
     match t {
         Term::Variable(v) => json!({"var": v}),
         Term::Integer(i) => json!({"int": i}),
